@@ -157,6 +157,35 @@ def c10_answer_after_many_other_requests(n_between):
         r.close()
 
 
+def c06_cer_rejected_under_every_schedule(policy, host="x.r9"):
+    """a CER that must be rejected (unknown peer: 3010 and close) arrives; reader, writer and I/O loop run under every
+    schedule (visible operations, before and after each): the connection must end up closed however the CEA is flushed"""
+    from .world import role_policy
+    r = nt.Runner(CFG2, seed=1)
+    w = r.w
+    try:
+        r.do({"a": "start"})
+        st = r.do({"a": "connect"})
+        c = st["out"][0]["c"]
+        m = nt.M("CE", True, 1, 1, oh=host, auth=[4])
+        act = {"a": "feed", "c": c, "ms": [m]}
+        r._mark = len(w.s.obs)
+        w.s.emit("fed", c=c, m=None)
+        r.vcs[c].sock.feed(nt.concrete(m))
+        w.s.fine = True
+        w.s.policy = policy
+        w.s.run()
+        w.s.fine = False
+        w.s.policy = role_policy
+        w.s.run()
+        out = r._collect()
+        r.steps.append({"act": act, "out": out, "snap": w.snap()})
+        r.do({"a": "tick"})
+        return {"steps": r.steps, "exits": [(n, e) for n, e, _ in w.s.exits], "params": nt.model_params(r.full_cfg, max_conn=6)}
+    finally:
+        r.close()
+
+
 CFG3 = {"node": {"idle": 2, "dwa": 4, "cer": 4, "cea": 4, "wakeup": 1, "retx": 4},
         "peers": [peer_cfg("p1"), peer_cfg("p2")], "apps": [app_cfg("a1", 4, peers=["p1", "p2"], handler="answer")]}
 
